@@ -65,7 +65,45 @@ func cmdSched(args []string) int {
 		if !hasFlag {
 			delete(input, "flag")
 		}
-		id := fmt.Sprintf("sched-%d-%d", c.seed, i)
+		sweepCase(w, cr, fmt.Sprintf("sched-%d-%d", c.seed, i), wf, text, beh, input, hold, maxPoints)
+	}
+	// targeted shapes whose meaning fixes one result although a stop condition is involved: a step that can never get
+	// its input (its producer fails) is released by its stop condition; the output needs its closed result
+	nScen := 1
+	if c.tier == "thorough" {
+		nScen = 4
+	}
+	for i := 0; i < nScen; i++ {
+		cr := r.fork()
+		if c.n+i < c.skip {
+			continue
+		}
+		w.emit(map[string]any{"kind": "begin", "index": c.n + i})
+		wf := &AWf{Outputs: map[string]AIn{}, InputFields: []AField{{Name: "name", Type: "string", Required: true}}}
+		wf.Steps = []AStep{
+			{ID: "a", Kind: "plugin", PlugStep: "op", Src: "a", Fields: map[string]AIn{"input": amap("s", lit("x"))}},
+			{ID: "d", Kind: "plugin", PlugStep: "op", Src: "d", Fields: map[string]AIn{"input": amap("s", lit("y"))}},
+			{ID: "b", Kind: "plugin", PlugStep: "op", Src: "b", Fields: map[string]AIn{
+				"input":   amap("s", expr("$.steps.d.outputs.success.s")),
+				"stop_if": expr("$.steps.a.outputs")}},
+		}
+		for k := 0; k < cr.intn(2); k++ {
+			id := fmt.Sprintf("e%d", k)
+			wf.Steps = append(wf.Steps, AStep{ID: id, Kind: "plugin", PlugStep: "op", Src: id, Fields: map[string]AIn{"input": amap("s", lit("z"))}})
+		}
+		out := AIn{K: "map"}
+		out.put("v", expr("$.steps.b.closed.result"))
+		wf.OutputIDs = []string{"stopped"}
+		wf.Outputs["stopped"] = out
+		beh := map[string]Behaviour{"a": {Outcome: "success"}, "d": {Outcome: "error"}, "b": {Outcome: "success"}}
+		sweepCase(w, cr, fmt.Sprintf("sched-stop-%d-%d", c.seed, i), wf, wf.yaml(nil, nil), beh, map[string]any{"name": "nm"}, hold, 0)
+	}
+	return 0
+}
+
+// sweepCase runs one workflow without delays (twice: the case needs a single reproducible result) and then once per
+// synchronisation point passed by the baseline run with that point held for `hold` ms.
+func sweepCase(w *lineWriter, cr *rng, id string, wf *AWf, text string, beh map[string]Behaviour, input map[string]any, hold, maxPoints int) {
 		vsched.SetPlan(nil)
 		vsched.Record(true)
 		base := execEngineCase(id+"-base", wf, text, beh, input, engineOpts{cancelAfterMs: -1})
@@ -74,7 +112,7 @@ func cmdSched(args []string) int {
 		if _, skipped := base["skip"]; skipped {
 			base["kind"] = "sched"
 			w.emit(base)
-			continue
+			return
 		}
 		// the baseline must be reproducible without any delay, otherwise the case has no single result
 		again := execEngineCase(id+"-base2", wf, text, beh, input, engineOpts{cancelAfterMs: -1})
@@ -83,7 +121,7 @@ func cmdSched(args []string) int {
 			base["kind"] = "sched"
 			base["skip"] = "baseline not reproducible: " + baseKey + " vs " + resultKey(again)
 			w.emit(base)
-			continue
+			return
 		}
 		points := make([]string, 0, len(hits))
 		for p := range hits {
@@ -123,6 +161,4 @@ func cmdSched(args []string) int {
 		base["points_hit"] = len(hits)
 		base["sweeps"] = sweeps
 		w.emit(base)
-	}
-	return 0
 }
